@@ -131,7 +131,7 @@ class Interp(object):
     # ------------------------------------------------------------------ merging
     def merge(self, outs):
         """outs: list of (state, control). Merge identical states."""
-        if len(outs) < 2:
+        if len(outs) < 2 or getattr(self, 'no_merge', False):
             return outs
         if self.tracked_preds:
             for st, _ in outs:
@@ -751,20 +751,22 @@ class Interp(object):
                         if self.cmp_ptr(st, 'eq', x, o) != ZERO:
                             st.eq[ps] = x if x[0] != 'pset' else o
                             st.touch()
-                            return True
+                            return self.implied(st, ps)
                     return False
                 rest = tuple(x for x in ps[2] if self.cmp_ptr(st, 'eq', x, o) != ONE)
                 if not rest:
                     return False
                 st.eq[ps] = rest[0] if len(rest) == 1 else ('pset', ps[1], rest)
                 st.touch()
-                return True
+                return self.implied(st, ps)
             if a[0] in ('ptr', 'fn') or b[0] in ('ptr', 'fn'):
                 r = self.cmp_ptr(st, 'eq', a, b)
                 if is_const(r):
                     return (r[1] != 0) == truth
                 if truth and a[0] == 'ptr' and b[0] == 'ptr':
                     return st.union(a[2], b[2])
+                if not truth and a[0] == 'ptr' and b[0] == 'ptr' and a[1] == b[1]:
+                    return st.add_neq(a[2], b[2])
                 # an opaque pointer value (e.g. read from a summary node) compared with a known pointer
                 for x, y in ((a, b), (b, a)):
                     if x[0] == 'sym' and y[0] in ('ptr', 'fn'):
@@ -820,6 +822,15 @@ class Interp(object):
         if truth:
             return st.add_neq(cond, ZERO)
         return st.union(cond, ZERO) if cond[0] not in ('ptr', 'fn') else False
+
+    def implied(self, st, ps):
+        """Entry-state invariants of the form `pointer field is NULL => counter field is 0` (declared by the harness in
+        tags['implications'], proved preserved by the rule that declares them): apply once the pointer is resolved."""
+        for pterm, when, atom, dom in st.tags.get('implications', ()):
+            if pterm == ps and st.canon(ps) == when:
+                if not st.refine(atom, dom):
+                    return False
+        return True
 
     def branch(self, st, v):
         """-> (state_true|None, state_false|None) for condition value v."""
